@@ -19,11 +19,13 @@ import (
 	"fmt"
 	"os"
 	"regexp"
+	"runtime"
 	"sort"
 	"strings"
 
 	"cuelang.org/go/internal/mod/modload"
 	"cuelang.org/go/internal/verif/core"
+	"cuelang.org/go/internal/verif/racelog"
 )
 
 func init() {
@@ -38,7 +40,7 @@ func init() {
 			"ambiguity is judged among listed modules only, as the loader does",
 		},
 		Run: run, Replay: replay,
-		RequireOutcomes: []string{"tidy:ok", "tidy:error", "schedule:ok", "modfile:roundtrip-ok", "modfile:edit-rejected"},
+		RequireOutcomes: []string{"tidy:ok", "tidy:error", "schedule:ok", "modfile:roundtrip-ok", "modfile:edit-rejected", "race:none"},
 		BudgetQuick:     240, BudgetThorough: 1500,
 		Workers: 0,
 	})
@@ -55,6 +57,10 @@ type kase struct {
 func run(r *core.Run) {
 	// The schedule phase comes first: goroutines left over from free-running
 	// phases must not meet an active scheduler.
+	if os.Getenv("VERIF_PASS") == "extra" {
+		racePass(r)
+		return
+	}
 	only := os.Getenv("VERIF_C17_ONLY") // debugging aid: run a single phase
 	if only == "" || only == "sched" {
 		runSchedules(r)
@@ -65,6 +71,67 @@ func run(r *core.Run) {
 	if only == "" || only == "modfile" {
 		runModfiles(r)
 	}
+	if os.Getenv("VERIF_EXTRA_BIN") == "" {
+		r.Section("race pass")
+		r.Unclaimed("race pass skipped: no -race build of the harness was given")
+	}
+}
+
+// racePass runs in the -race build of the harness: the loader runs free on
+// real goroutines (the shims fall through to the real primitives) and the Go
+// race detector watches the plain memory accesses that the cooperative
+// scheduler does not interleave.
+func racePass(r *core.Run) {
+	us := schedUniverses()
+	reps := 6
+	if r.Thorough() {
+		reps = 40
+	}
+	r.Section(fmt.Sprintf("race pass: Tidy, CheckTidy and LoadPackages on %d universes x {2,4,8} queue workers x %d repetitions on real goroutines under the race detector", len(us), reps))
+	if !racelog.Enabled {
+		r.EngineError("race pass requested in a binary built without -race")
+		return
+	}
+	old := runtime.GOMAXPROCS(0)
+	defer runtime.GOMAXPROCS(old)
+	for _, su := range us {
+		for _, workers := range []int{2, 4, 8} {
+			if !r.Mine() {
+				continue
+			}
+			c := kase{Kind: "race", U: su.u, Name: su.name, W: fmt.Sprint(workers)}
+			r.Guard(c, func() { raceCase(r, c, workers, reps) })
+		}
+	}
+}
+
+func raceCase(r *core.Run, c kase, workers, reps int) {
+	runtime.GOMAXPROCS(workers)
+	before := racelog.Reports()
+	var first string
+	for i := 0; i < reps; i++ {
+		o, _ := tidy(c.U, Arr{}, false)
+		got := o.String()
+		if o.Err != "" {
+			got = "error: " + errClass(o.Err)
+		} else {
+			loadState(c.U, o.Deps, false)
+			checkTidy(withDeps(c.U, o.Deps), Arr{})
+		}
+		if i == 0 {
+			first = got
+		} else if got != first {
+			r.Violation(fmt.Sprintf("race pass: result differs between free runs [%s]", c.Name), c, got+"\nvs\n"+first)
+			return
+		}
+		r.Trans(1)
+	}
+	if n := racelog.Reports() - before; n > 0 {
+		rep := racelog.Last()
+		r.Violation(fmt.Sprintf("data race: %s [%s]", racelog.Site(rep), c.Name), c, rep)
+		return
+	}
+	r.Outcome("race:none")
 }
 
 func replay(r *core.Run, payload json.RawMessage) {
@@ -80,6 +147,10 @@ func replay(r *core.Run, payload json.RawMessage) {
 		r.Guard(c, func() { replaySchedule(r, c) })
 	case "modfile", "modfile-edit":
 		r.Guard(c, func() { checkModfile(r, c) })
+	case "race":
+		var w int
+		fmt.Sscan(c.W, &w)
+		r.Guard(c, func() { raceCase(r, c, w, 40) })
 	}
 }
 
@@ -176,6 +247,13 @@ func checkUniverse(r *core.Run, c kase) {
 		r.Outcome("tidy:error")
 		r.Outcome("tidy:error:" + strings.SplitN(errClass(base.Err), " ", 2)[0])
 		r.State("err:" + errClass(base.Err))
+		// an error must be justified: starting from an empty module file, a
+		// package that the main module imports directly and that the latest
+		// version of a module on its path provides cannot be "missing"
+		if p, ok := strings.CutPrefix(errTail(base.Err, "cannot find module providing package "), ""); ok && p != "" && len(u.Main.Deps) == 0 && directImport(u, p) && providedByLatest(u, p) {
+			viol("unjustified error", "tidy reports "+base.Err+"\nbut the latest version of a module on the import path provides the package")
+			return
+		}
 		// the tidy check must not accept a module that cannot be tidied
 		if err := checkTidy(u, Arr{}); err == nil {
 			r.Unclaimed("CheckTidy accepts a module file for which Tidy fails")
@@ -292,4 +370,56 @@ func describe(u *Universe) string {
 		w(m)
 	}
 	return b.String()
+}
+
+// errTail returns what follows marker in msg up to the end of the line.
+func errTail(msg, marker string) string {
+	i := strings.Index(msg, marker)
+	if i < 0 {
+		return ""
+	}
+	t := msg[i+len(marker):]
+	if j := strings.IndexAny(t, "\n "); j >= 0 {
+		t = t[:j]
+	}
+	return t
+}
+
+func directImport(u *Universe, imp string) bool {
+	for _, p := range u.Main.Pkgs {
+		for _, f := range p.Files {
+			for _, x := range f {
+				if x == imp {
+					return true
+				}
+			}
+		}
+	}
+	return false
+}
+
+// providedByLatest reports whether the version that a registry query picks
+// for some module on the import path contains the package.
+func providedByLatest(u *Universe, imp string) bool {
+	ipath, major := splitImport(imp)
+	for prefix := ipath; prefix != "" && prefix != "."; prefix = parent(prefix) {
+		q := prefix
+		if major != "" {
+			q = prefix + "@" + major
+		}
+		v := latest(u, q)
+		if v == "" {
+			continue
+		}
+		mj := major
+		if mj == "" {
+			mj = v[:strings.IndexByte(v, '.')]
+		}
+		m := u.lookup(prefix+"@"+mj, v)
+		dir := strings.TrimPrefix(strings.TrimPrefix(ipath, prefix), "/")
+		if m != nil && m.pkg(dir) != nil {
+			return true
+		}
+	}
+	return false
 }
